@@ -131,7 +131,8 @@ def gen_metadata(rng, depth=0, allow_empty=False):
                     else {'d%d' % d: inner}
 
             md = {'deep': inner, 'wide': {'k%03d' % i: i
-                                          for i in range(rng.choice([30, 300]))}}
+                                          for i in range(rng.choice([30, 300,
+                                                                    1200]))}}
 
         _LAST_MD[0] = md
         return md
@@ -190,6 +191,10 @@ def gen_content_op(rng, name, scope_enc, pool=None, big=False):
         if big and rng.chance(0.25):
             # long contents / long lines (well beyond any read-ahead block)
             op['text'] = op['text'] * rng.choice([20, 300, 2000])
+        elif big and rng.chance(0.08) and enc_ok('l\n', eff):
+            # very many short lines (more than 2**16)
+            op['text'] = rng.choice(['l\n', 'l\r\n', '\n']) * \
+                rng.choice([65535, 65536, 70001])
 
         if rng.chance(0.04 if not big else 0.3) and enc_ok('x', eff):
             # a long first line, at lengths around powers of two and block
@@ -218,6 +223,9 @@ def gen_content_op(rng, name, scope_enc, pool=None, big=False):
 
         if big and rng.chance(0.25):
             body = body * rng.choice([20, 300, 2000])
+        elif big and rng.chance(0.08):
+            body = rng.choice([b'+l\n', b'-l\r\n', b'\n']) * \
+                rng.choice([65535, 65536, 70001])
 
         if rng.chance(0.04 if not big else 0.3):
             k = rng.choice([95, 96, 97, 1023, 1024, 1025, 4095, 4096, 4097,
@@ -247,6 +255,8 @@ def gen_history(rng, max_changes=3, max_files=3, pool=None, p_enc=0.4,
 
     if big and rng.chance(0.3):
         max_files = 40          # many sections
+    elif big and rng.chance(0.2):
+        max_changes, max_files = 400, 1     # > 1000 sections
 
     ops = []
     scope = [main]
